@@ -501,6 +501,34 @@ def opCmp (f : Fam) (kind : String) (a b : Text) (out : String) : String × Stri
       | _ => "FAIL " ++ out
   (m, o)
 
+/-- every provided cross-type comparison agrees with the documented equivalence / the order -/
+def opCross (f : Fam) (a b : Text) (out : String) : String × String :=
+  let m := Model.crossLine f a b
+  let o :=
+    if !valid f "ref" a || !valid f "ref" b then
+      (if out == "invalid" then "skip" else "FAIL accepted an argument outside the RFC production")
+    else if out == "PANIC" then "FAIL comparison panicked"
+    else
+      let want := Oracle.specEq "ref" a b
+      match out.splitOn " " with
+      | [e, c, x] => verdict (firstFail [
+          check (e == "eq=" ++ b01 want) "equality differs from the documented equivalence",
+          check ((c == "cmp=0") == (e == "eq=1")) "ordering's 'equal' outcome does not coincide with equality",
+          check (x == "cross=ok") ("a cross-type comparison impl disagrees with the same-type result: " ++ x)])
+      | _ => "FAIL " ++ out
+  (m, o)
+
+/-- comparing a value with plain text is plain text comparison -/
+def opStrEq (kind : String) (v : Text) (out : String) : String × String :=
+  let m := Model.streqLine kind v
+  let o := match Kind.ofString? kind with
+    | none => "FAIL malformed request"
+    | some k =>
+      if !acceptsSpec k v then (if out == "invalid" then "skip" else "FAIL accepted an argument outside the RFC production")
+      else if out == "ok" then "ok"
+      else "FAIL comparison of a value with plain text is not plain text comparison: " ++ out
+  (m, o)
+
 def opHash (f : Fam) (kind : String) (a : Text) (out : String) : String × String :=
   let m := Model.hashLine f kind a
   let o := if out.startsWith "OWNED-DIFFERS" then "FAIL owned and borrowed values hash differently"
@@ -576,6 +604,7 @@ def opDataUrl (x : Text) (out : String) : String × String :=
     if out == "0" then "skip"
     else if out.startsWith "ACCEPT-DIFF" then "FAIL borrowed and owned constructors disagree"
     else if out.startsWith "VIEWS-DIFF" then "FAIL borrowed and owned views disagree"
+    else if out.startsWith "ROUTES-DIFF" then "FAIL a route in or out of a data URL disagrees with the constructors: " ++ out
     else if out.startsWith "ERRCHANGED" then "FAIL the error does not hand the input back"
     else match out.splitOn " " with
       | [mt, b64, data, dec] =>
@@ -817,6 +846,14 @@ def dispatch (opLine out : String) : String × String :=
     match Fam.ofString? f, unhex x with
     | some f, some x => opPct f kind x out
     | _, _ => bad
+  | ["cross", f, a, b] =>
+    match Fam.ofString? f, unhex a, unhex b with
+    | some f, some a, some b => opCross f a b out
+    | _, _, _ => bad
+  | ["streq", kind, v, _] =>
+    match unhex v with
+    | some v => opStrEq kind v out
+    | none => bad
   | ["pctref", f, x] =>
     match Fam.ofString? f, unhex x with
     | some f, some x => opPctRef f x out
